@@ -26,6 +26,10 @@ CHECKS = {
          "For every enumerated stream: IGNORE and LOG deliver identical items; under LOG the handler (or the logger, if absent) is called exactly once per rejected frame token, in order, with the parser's exception; under RAISE the items before the first error event are delivered and that same exception is raised.",
          "exception identity compared by class name and message; log records captured at the root logger.",
          "DESIGN.md §5 C12"),
+ "C10": ("schedule enumeration of the environment: state-merged DFS over every recv() answer (chunk size) on the real SocketWrapper+UBXReader x bufsize x end condition; differential oracle against the file-stream run plus read/readline contracts",
+         "For every enumerated byte sequence, every segmentation into recv() chunks, every listed bufsize and end condition, the socket run yields the same items as io.BytesIO, read(n) returns n bytes or nothing, readline() stops at the next LF, and the wrapper's output is a prefix of the input.",
+         "state merging keyed on real buffer bytes + history hash (cross-checked unmerged on short streams); no real TCP / OS scheduling involved; end conditions only after the last byte.",
+         "DESIGN.md §5 C10"),
 }
 NOT_YET = "check not built yet in this round (planned: see DESIGN.md §5)"
 
